@@ -42,6 +42,10 @@ type LinearState struct {
 
 	cachedRules map[string]*Rule
 
+	// cacheMutex protects cachedRules, which is also touched by
+	// readers (that hold only the read lock).
+	cacheMutex sync.Mutex
+
 	store Storage
 
 	addHook AddHookFn
@@ -154,7 +158,6 @@ func (s *LinearState) Load(ctx *Context) error {
 
 func (s *LinearState) Add(ctx *Context, id string, x Map) (string, error) {
 	Log(DEBUG, ctx, "LinearState.Add", "state", s.Name, "x", x, "id", id)
-	delete(s.cachedRules, id)
 	timer := NewTimer(ctx, "LinearState.Add")
 	defer timer.Stop()
 
@@ -190,6 +193,7 @@ func (s *LinearState) Add(ctx *Context, id string, x Map) (string, error) {
 			Metric(ctx, "RuleUpdated", "location", s.Name, "ruleId", id)
 		}
 	}
+	s.uncacheRule(id)
 	s.Facts[id] = RawFact{m, bs}
 	s.sunlock(ctx, false)
 
@@ -215,7 +219,6 @@ func (s *LinearState) Rem(ctx *Context, id string) (bool, error) {
 
 func (s *LinearState) rem(ctx *Context, id string, lock bool) (bool, error) {
 	Log(DEBUG, ctx, "LinearState.rem", "id", id)
-	delete(s.cachedRules, id)
 	_, err := s.store.Remove(ctx, s.Name, []byte(id))
 	// ToDo: Consider what's returned.
 	if err != nil {
@@ -227,6 +230,7 @@ func (s *LinearState) rem(ctx *Context, id string, lock bool) (bool, error) {
 		s.slock(ctx, false)
 		defer s.sunlock(ctx, false)
 	}
+	s.uncacheRule(id)
 	_, had := s.Facts[id]
 	if had {
 		Log(DEBUG, ctx, "LinearState.Rem", "found", id)
@@ -339,12 +343,23 @@ func (s *LinearState) FindRules(ctx *Context, event Map) (map[string]Map, error)
 	return s.doFindRules(ctx, event)
 }
 
+func (s *LinearState) uncacheRule(id string) {
+	s.cacheMutex.Lock()
+	delete(s.cachedRules, id)
+	s.cacheMutex.Unlock()
+}
+
 func (s *LinearState) doFindRules(ctx *Context, event Map) (map[string]Map, error) {
+	s.slock(ctx, true)
+	defer s.sunlock(ctx, true)
+	return s.findRules(ctx, event)
+}
+
+// findRules assumes a read lock.
+func (s *LinearState) findRules(ctx *Context, event Map) (map[string]Map, error) {
 	// We could call Search(), but we'll try to be a bit
 	// more efficient here.
 	acc := make(map[string]Map)
-	s.slock(ctx, true)
-	defer s.sunlock(ctx, true)
 	now := time.Now().UTC().Unix()
 	for id, rf := range s.Facts {
 		rule, given := rf.M["rule"]
@@ -406,10 +421,19 @@ func (s *LinearState) FindCachedRules(ctx *Context, event Map) (map[string]*Rule
 	timer := NewTimer(ctx, "LinearState.FindCachedRules")
 	defer timer.Stop()
 
-	rules, err := s.doFindRules(ctx, event)
+	// Keep the read lock while consulting and filling the cache:
+	// a writer invalidates the cache under the write lock, so a
+	// parsed rule can't outlive the body it was parsed from.
+	s.slock(ctx, true)
+	defer s.sunlock(ctx, true)
+
+	rules, err := s.findRules(ctx, event)
 	if err != nil {
 		return nil, err
 	}
+
+	s.cacheMutex.Lock()
+	defer s.cacheMutex.Unlock()
 
 	acc := make(map[string]*Rule)
 	for id, r := range rules {
@@ -433,7 +457,9 @@ func (s *LinearState) Clear(ctx *Context) error {
 	// Maybe protect the store (above), too.
 	s.slock(ctx, false)
 	s.Facts = make(map[string]RawFact)
+	s.cacheMutex.Lock()
 	s.cachedRules = make(map[string]*Rule)
+	s.cacheMutex.Unlock()
 	s.sunlock(ctx, false)
 	return err
 }
@@ -444,7 +470,9 @@ func (s *LinearState) Delete(ctx *Context) error {
 	// Maybe protect the store (above), too.
 	s.slock(ctx, false)
 	s.Facts = make(map[string]RawFact)
+	s.cacheMutex.Lock()
 	s.cachedRules = make(map[string]*Rule)
+	s.cacheMutex.Unlock()
 	s.sunlock(ctx, false)
 	return err
 }
